@@ -40,6 +40,8 @@ def make_policy(desc, rng):
                          desc.get('start', 0), desc.get('len', 100))
   if kind == 'rr':
     return kernel.RoundRobin(desc.get('quantum', 1))
+  if kind == 'phased':
+    return kernel.Phased(make_policy(desc['first'], rng), desc.get('switch_at', 200), make_policy(desc['then'], rng))
   raise ValueError(kind)
 
 
